@@ -479,8 +479,8 @@ def check_recordings(ctx, driver, module, files, open_kf, variant_of=lambda f: "
                 body, observed = rep
                 rp = write_replay_body(ctx, body)
                 log("unexplained execution at line %d of %s: %s observed=%s" % (
-                    target, os.path.basename(f), json.dumps(body, separators=(",", ":"))[:1500],
-                    json.dumps(observed, separators=(",", ":"))[:1500]))
+                    target, os.path.basename(f), json.dumps(body, separators=(",", ":"))[:500],
+                    json.dumps(observed, separators=(",", ":"))[:500]))
                 violation(ctx, rp)
                 nviol += 1
                 ctx.states += r["distinct"]
@@ -502,8 +502,8 @@ def check_recordings(ctx, driver, module, files, open_kf, variant_of=lambda f: "
                 cpath, crec = confirmed
                 rp = write_replay(ctx, driver, variant, module, cpath, dict(res=crec["res"], proj=crec["proj"]))
                 log("unexplained call at line %d of %s: path=%s observed=%s" % (
-                    target, os.path.basename(f), json.dumps(cpath, separators=(",", ":"))[:1500],
-                    json.dumps(dict(res=crec["res"], proj=crec["proj"]), separators=(",", ":"))[:1500]))
+                    target, os.path.basename(f), json.dumps(cpath, separators=(",", ":"))[:500],
+                    json.dumps(dict(res=crec["res"], proj=crec["proj"]), separators=(",", ":"))[:500]))
                 violation(ctx, rp)
                 nviol += 1
             else:
